@@ -339,7 +339,8 @@ def run_case(case, ctx):
         elif how_ == 'n_int':
             _try(lambda: xs_.resize(n_int=w2_ - nf - (1 if sx else 0), n_frac=nf))
         else:
-            xs_ = _try(lambda: Fxp(xs_, like=xs_, n_int=w2_ - nf - (1 if sx else 0), n_frac=nf)) or xs_
+            xl_ = _try(lambda: Fxp(xs_, like=xs_, n_int=w2_ - nf - (1 if sx else 0), n_frac=nf))
+            xs_ = xl_ if xl_ is not None else xs_
         _try(lambda: ~xs_)
         _try(lambda: ~~xs_)
         xb_ = Fxp([a, lox, hix], sx, w, nf, raw=True)
